@@ -2,22 +2,9 @@
    `.pos` gets a missing token, Crash IndexError for context.history[-k] on a short history, Hang when the fuel of a loop runs
    out, Fatal for CParsingError).  Here: which inputs make them raise, that nothing else does, and that no fuel runs out. *)
 From NV Require Import Model.Base Model.RuleChecks Gen.RuleChecks Model.CounterBase Gen.Counters Proofs.StrOrder Proofs.RuleChecksProofs
-  Proofs.RuleChecksProofs2 Proofs.RuleChecksSpacing Model.ScopeBase Gen.ScopeOps Model.ScopeTrace.
+  Proofs.RuleChecksProofs2 Proofs.RuleChecksSpacing Proofs.SpacingTotal Model.ScopeBase Gen.ScopeOps Model.ScopeTrace.
 From Coq Require Import Lia.
 Local Open Scope Z_scope.
-
-(* ------------------------------------------------------------------ tokens that exist *)
-Lemma peek_lt_some toks i : 0 <= i < zlen toks -> exists t, peek toks i = Some t.
-Proof.
-  intros H. rewrite peek_nonneg by lia. destruct (Z.ltb_spec i (zlen toks)); [|lia].
-  destruct (nth_error toks (Z.to_nat i)) eqn:E; [eexists; reflexivity|]. apply nth_error_None in E. unfold zlen in *. lia.
-Qed.
-Lemma peek_none_ge toks i : 0 <= i -> peek toks i = None -> zlen toks <= i.
-Proof. intros H N. destruct (Z.ltb_spec i (zlen toks)) as [L|L]; [|lia]. destruct (peek_lt_some toks i) as [t E]; [lia|congruence]. Qed.
-Lemma nonempty_peek0 toks : toks <> [] -> exists t, peek toks 0 = Some t.
-Proof. intros H. apply peek_lt_some. destruct toks; [congruence|]. unfold zlen. cbn [Datatypes.length]. lia. Qed.
-Lemma skip_ws_ge toks i : i <= skip_ws toks i.
-Proof. apply skip_while_f_ge. Qed.
 
 (* ------------------------------------------------------------------ CheckTernary, CheckLineLen: total *)
 Theorem check_ternary_total : forall toks scope v, exists r, check_ternary toks scope v = Ok r.
@@ -113,145 +100,6 @@ Proof.
         by (intros x [[[e g] E] v1]; destruct (_ || _ || _); [eexists; reflexivity|]; destruct (negb _); eexists; reflexivity);
       destruct (for_each_total f Hb ll st) as [[[[e g] E] v1] R]; rewrite R
     end; cbn [bind]; apply Tail.
-Qed.
-
-(* ================================================================== CheckSpacing *)
-(* every position a `while p(x): x += 1` loop ran over satisfies p *)
-Lemma skip_while_f_all fuel p : forall i j, i <= j < skip_while_f fuel p i -> p j = true.
-Proof.
-  induction fuel as [|f IH]; intros i j H; cbn [skip_while_f] in H; [lia|].
-  destruct (p i) eqn:E; [|lia]. destruct (Z.eq_dec j i) as [->|Hn]; [exact E|]. apply (IH (i + 1)). lia.
-Qed.
-Lemma skip_while_all toks p i j : i <= j < skip_while toks p i -> p j = true.
-Proof. apply skip_while_f_all. Qed.
-Lemma skip_while_gt toks p i : p i = true -> i + 1 <= skip_while toks p i.
-Proof.
-  intros H. unfold skip_while, loop_fuel. cbn [skip_while_f]. rewrite H.
-  apply (skip_while_f_ge (S (2 * Datatypes.length toks)) p (i + 1)).
-Qed.
-
-Lemma slice_len_le toks scope : slice_len toks scope <= zlen toks.
-Proof.
-  unfold slice_len, py_slice_to, zlen. destruct (scope <? 0); rewrite firstn_length; lia.
-Qed.
-
-(* the list of tokens does not end in a SPACE *)
-Definition last_not_space (toks : list token) : Prop := truthy (check1 toks (zlen toks - 1) ty_space) = false.
-
-Lemma slice_len_le_scope toks scope : 0 <= scope -> slice_len toks scope <= scope.
-Proof. intros H. unfold slice_len, py_slice_to, zlen. destruct (Z.ltb_spec scope 0); [lia|]. rewrite firstn_length. lia. Qed.
-
-Lemma check1_excl toks j A B : truthy (check1 toks j A) = true -> str_eqb A B = false -> truthy (check1 toks j B) = false.
-Proof.
-  unfold check1. destruct (peek toks j) as [t|]; [|discriminate]. cbn [truthy]. intros H HAB.
-  destruct (str_eqb (t_type t) A) eqn:E; [|discriminate]. apply str_eqb_eq in E. rewrite E, HAB. reflexivity.
-Qed.
-
-Section Total.
-  Variables (toks : list token) (scope : Z).
-  Hypothesis Hlast : last_not_space toks.
-  Hypothesis Hscope : 0 <= scope.
-
-  Lemma spacing_loop_total : forall fuel i a b E v, 0 <= i -> Z.max 0 (zlen toks - i) < Z.of_nat fuel ->
-    exists r, check_spacing_loop1 fuel toks scope i a b E v = Ok r.
-  Proof.
-    induction fuel as [|f IH]; intros i a b E v Hi Hf; [lia|].
-    cbn [check_spacing_loop1]. cbv zeta. fold ty_space. fold (sp_pred toks scope). fold (tab_pred toks).
-    destruct (in_range0 i (zlen (py_slice_to toks scope))) eqn:Hr; [|eexists; reflexivity].
-    assert (Hil : i < zlen toks /\ i < scope).
-    { unfold in_range0 in Hr. apply andb_true_iff in Hr as [_ Hr]. apply Z.ltb_lt in Hr.
-      pose proof (slice_len_le toks scope). pose proof (slice_len_le_scope toks scope Hscope). unfold slice_len in *. lia. }
-    destruct Hil as [Hil His].
-    destruct (peek_lt_some toks i) as [ti Pi]; [lia|].
-    pose proof (skip_while_ge toks (sp_pred toks scope) i) as F1.
-    pose proof (skip_while_ge toks (sp_pred toks scope) (i + 1)) as F2.
-    pose proof (skip_while_ge toks (tab_pred toks) i) as F3.
-    assert (FK : skip_while toks (sp_pred toks scope) i < zlen toks).
-    { destruct (Z.ltb_spec (skip_while toks (sp_pred toks scope) i) (zlen toks)) as [L|L]; [exact L|]. exfalso.
-      assert (Hp : sp_pred toks scope (zlen toks - 1) = true) by (apply (skip_while_all toks _ i); lia).
-      unfold sp_pred in Hp. apply andb_true_iff in Hp as [_ Hp]. unfold last_not_space in Hlast. congruence. }
-    assert (G1 : truthy (check1 toks i ty_space) = true -> i + 1 <= skip_while toks (sp_pred toks scope) i).
-    { intros Q. apply skip_while_gt. unfold sp_pred. rewrite Q. replace (i <? scope) with true by (symmetry; apply Z.ltb_lt; lia). reflexivity. }
-    assert (G3 : truthy (check1 toks i (s "TAB")) = true -> i + 1 <= skip_while toks (tab_pred toks) i).
-    { intros Q. apply skip_while_gt. exact Q. }
-    assert (Next : forall j a' b' E', i + 1 <= j -> exists r, check_spacing_loop1 f toks scope j a' b' E' v = Ok r).
-    { intros j a' b' E' Hj. apply IH; lia. }
-    assert (Pk : forall e, 0 <= e < zlen toks -> exists t, peek toks e = Some t) by (intros e He; apply peek_lt_some; exact He).
-    assert (Lt : forall j c, 0 <= j -> truthy (check1 toks j c) = true -> j < zlen toks) by (intros j c H0 Q; eapply check1_true_lt; eassumption).
-    rewrite Pi. cbn [need_tok]. replace (i + 1 - 1) with i by lia. rewrite ?Pi.
-    destruct (i >? 0) eqn:Qi; [apply Z.gtb_lt in Qi|].
-    2:{ (* i = 0: the token before the first one is the first one itself - a SPACE is no TAB *)
-        destruct (truthy (check1 toks i ty_space)) eqn:Qs0.
-        - assert (i = 0) by (rewrite Z.gtb_ltb in Qi; apply Z.ltb_ge in Qi; lia).
-          assert (Hnt : truthy (check1 toks 0 (s "TAB")) = false) by (subst i; apply (check1_excl toks 0 ty_space); [exact Qs0|reflexivity]).
-          rewrite Hnt. specialize (G1 eq_refl). repeat first
-      [ match goal with |- exists r, Ok _ = Ok r => eexists; reflexivity end
-      | match goal with |- exists r, check_spacing_loop1 _ toks scope _ _ _ _ _ = Ok r => apply Next; lia end
-      | progress cbn [emit bind need_tok]
-      | match goal with |- exists r, (if ?c then _ else _) = Ok r =>
-          let Q := fresh "Q" in destruct c eqn:Q;
-          try (specialize (G1 Q)); try (specialize (G1 eq_refl)); try (specialize (G3 Q)); try (specialize (G3 eq_refl));
-          try (match type of Q with truthy (check1 _ ?j ?c0) = true => assert (j < zlen toks) by (apply (Lt j c0); [lia|exact Q]) end)
-        end
-      | match goal with |- context [emit _ (peek _ ?e) _] =>
-          let tt := fresh "tt" in let PP := fresh "PP" in destruct (Pk e) as [tt PP]; [lia|rewrite PP]
-        end ].
-        - repeat first
-      [ match goal with |- exists r, Ok _ = Ok r => eexists; reflexivity end
-      | match goal with |- exists r, check_spacing_loop1 _ toks scope _ _ _ _ _ = Ok r => apply Next; lia end
-      | progress cbn [emit bind need_tok]
-      | match goal with |- exists r, (if ?c then _ else _) = Ok r =>
-          let Q := fresh "Q" in destruct c eqn:Q;
-          try (specialize (G1 Q)); try (specialize (G1 eq_refl)); try (specialize (G3 Q)); try (specialize (G3 eq_refl));
-          try (match type of Q with truthy (check1 _ ?j ?c0) = true => assert (j < zlen toks) by (apply (Lt j c0); [lia|exact Q]) end)
-        end
-      | match goal with |- context [emit _ (peek _ ?e) _] =>
-          let tt := fresh "tt" in let PP := fresh "PP" in destruct (Pk e) as [tt PP]; [lia|rewrite PP]
-        end ]. }
-    repeat first
-      [ match goal with |- exists r, Ok _ = Ok r => eexists; reflexivity end
-      | match goal with |- exists r, check_spacing_loop1 _ toks scope _ _ _ _ _ = Ok r => apply Next; lia end
-      | progress cbn [emit bind need_tok]
-      | match goal with |- exists r, (if ?c then _ else _) = Ok r =>
-          let Q := fresh "Q" in destruct c eqn:Q;
-          try (specialize (G1 Q)); try (specialize (G1 eq_refl)); try (specialize (G3 Q)); try (specialize (G3 eq_refl));
-          try (match type of Q with truthy (check1 _ ?j ?c0) = true => assert (j < zlen toks) by (apply (Lt j c0); [lia|exact Q]) end)
-        end
-      | match goal with |- context [emit _ (peek _ ?e) _] =>
-          let tt := fresh "tt" in let PP := fresh "PP" in destruct (Pk e) as [tt PP]; [lia|rewrite PP]
-        end ].
-  Qed.
-
-
-  (* CheckSpacing.run returns normally whenever the remaining tokens do not end in a SPACE (and tkn_scope is not negative) *)
-  Theorem check_spacing_total : forall v, v_history v <> [] -> exists r, check_spacing toks scope v = Ok r.
-  Proof.
-    intros v Hh. destruct (v_history v) as [|h1 rest] eqn:Hv; [congruence|].
-    unfold check_spacing. cbv zeta. unfold hist_back. rewrite Hv. cbn [Nat.sub nth_error need_hist].
-    destruct (str_in h1 _); [eexists; reflexivity|].
-    destruct (spacing_loop_total (loop_fuel toks) 0 false false [] v) as [[[[[i1 a1] b1] E1] v1] R]; [lia| |].
-    - unfold loop_fuel, zlen. lia.
-    - rewrite R. eexists. reflexivity.
-  Qed.
-End Total.
-
-Theorem check_spacing_crash_no_history : forall toks scope v, v_history v = [] -> check_spacing toks scope v = Crash IndexError.
-Proof. intros toks scope v Hh. unfold check_spacing. cbv zeta. unfold hist_back. rewrite Hh. reflexivity. Qed.
-
-(* the crash IS reachable: `int<TAB>a;\<newline><space><EOF>` - the lexer drops the line splice, the statement matched by
-   IsVarDeclaration ends in a SPACE in column 1 of line 2, the tokens end there *)
-Definition crash_tokens : list token :=
-  [mk_tok (s "INT") 1 1; mk_tok (s "TAB") 1 4; mk_tok (s "IDENTIFIER") 1 5; mk_tok (s "SEMI_COLON") 1 6; mk_tok (s "SPACE") 2 1].
-Definition crash_view : view := mkview [s "IsVarDeclaration"] (s "GlobalScope") true 0 true false.
-Theorem check_spacing_crashes_at_eof_blank : check_spacing crash_tokens 5 crash_view = Crash AttributeError.
-Proof. vm_compute. reflexivity. Qed.
-
-(* the only way CheckSpacing raises on a statement the registry passes: the remaining tokens end in a SPACE *)
-Theorem check_spacing_crash_only_at_trailing_space : forall toks scope v e, 0 <= scope -> v_history v <> [] ->
-  check_spacing toks scope v = Crash e -> truthy (check1 toks (zlen toks - 1) ty_space) = true.
-Proof.
-  intros toks scope v e Hs Hh Hc. destruct (truthy (check1 toks (zlen toks - 1) ty_space)) eqn:Q; [reflexivity|].
-  destruct (check_spacing_total toks scope Q Hs v Hh) as [r R]. congruence.
 Qed.
 
 (* ================================================================== skip_nest and the parameter counter *)
